@@ -4,6 +4,7 @@ pub mod cli;
 pub mod consts;
 pub mod data;
 pub mod fault;
+pub mod fuzzing;
 pub mod io;
 pub mod known;
 pub mod prog;
